@@ -275,12 +275,80 @@ pub fn run(ctx: &Ctx) -> i32 {
         res
     });
     sum.merge(ext);
+    // ---- stacked forests: overlapping translucent cels (incl. canvas-sized ones at the origin) and the other
+    // layer flag bits (background, lock, collapsed, ...) set at random on any layer of the forest ------------------
+    let nstack = ctx.tier.pick(6000u64, 80_000u64);
+    let st = run_stage(ctx, "stacked-forests", nstack, |i| {
+        let mut rng = Rng::derive(ctx.seed, "C09-stacked", i);
+        let n = rng.range(2, 14) as usize;
+        let mut levels: Vec<u16> = Vec::with_capacity(n);
+        for k in 0..n {
+            let max = if k == 0 { 0 } else { levels[k - 1] + 1 };
+            levels.push(rng.range(0, max as i64) as u16);
+        }
+        let (w, h) = (rng.range(1, 4) as u16, rng.range(1, 3) as u16);
+        let mut sp = Sprite::blank(w, h, Fmt::Rgba, 1);
+        for k in 0..n {
+            let has_child = k + 1 < n && levels[k + 1] > levels[k];
+            let mut l = LayerM::image(&format!("l{}", k));
+            l.level = levels[k];
+            l.flags = rng.chance(3, 4) as u16 | if rng.chance(1, 3) { (rng.u32() as u16) & 0x3e } else { 2 };
+            if has_child {
+                l.kind = LayerKind::Group;
+            } else if rng.chance(4, 5) {
+                let full = rng.chance(1, 2);
+                let (cw, ch, x, y) = if full { (w, h, 0i16, 0i16) } else { (rng.range(1, w as i64) as u16, rng.range(1, h as i64) as u16, rng.range(-1, w as i64) as i16, rng.range(-1, h as i64) as i16) };
+                let opaque = rng.chance(1, 3);
+                let mut px = Vec::new();
+                for _ in 0..cw as usize * ch as usize {
+                    px.extend_from_slice(&[rng.u32() as u8, rng.u32() as u8, rng.u32() as u8, if opaque { 255 } else { *rng.pick(&[255u8, 128, 77, 1]) }]);
+                }
+                if rng.chance(1, 4) {
+                    l.opacity = rng.opacity();
+                }
+                sp.cels.insert((0, k as u16), CelM { x, y, opacity: if rng.chance(1, 4) { rng.opacity() } else { 255 }, content: CelContentM::Image { w: cw, h: ch, pixels: px }, ud: None });
+            }
+            sp.layers.push(l);
+        }
+        let mut r2 = Rng::new(i);
+        let mut v = Variation::none();
+        v.default_storage = if i % 2 == 0 { Storage::Raw } else { Storage::Zlib(6) };
+        let (bytes, _) = encode(&compile(&sp, &mut r2, &v));
+        let mut res = CaseResult::ok(crate::gen::features(&sp), 0, "stacked-forest");
+        let flags: Vec<u16> = sp.layers.iter().map(|l| l.flags).collect();
+        match load(&bytes) {
+            Err(e) => res.violations.push(Violation::new(format!("load-failed|stacked|{}", err_sig(&e)), format!("forest failed to load: {}", e)).with_input(&bytes)),
+            Ok(ase) => {
+                let parents = sp.parents();
+                let visible = sp.visible();
+                for k in 0..n {
+                    let l = ase.layer(k as u32);
+                    if l.parent().map(|p| p.id() as usize) != parents[k] || l.is_visible() != visible[k] {
+                        res.violations.push(Violation::new("parent-or-visibility|stacked", format!("layer {}: parent {:?} visible {} expected {:?} / {} (levels {:?} flags {:?})", k, l.parent().map(|p| p.id()), l.is_visible(), parents[k], visible[k], levels, flags)).with_input(&bytes));
+                        return res;
+                    }
+                    res.leaves += 2;
+                }
+                let got = crate::val::Img::from_rgba(&ase.frame(0).image(), true);
+                let want = crate::refrender::render_frame(&sp, 0);
+                if let Some(d) = crate::val::diff(&crate::val::V::Img(got), &crate::val::V::Img(want)) {
+                    let hidden_celled: Vec<usize> = (0..n).filter(|k| !visible[*k] && sp.cels.contains_key(&(0, *k as u16))).collect();
+                    res.violations.push(Violation::new("hidden-layer-contributes-or-visible-missing|stacked", format!("frame image differs from the composition of the visible layers only: {} (levels {:?} flags {:?}; hidden layers with cels: {:?})", d, levels, flags, hidden_celled)).with_input(&bytes).with_extra(json!({"levels": levels, "flags": flags})));
+                }
+                res.leaves += w as u64 * h as u64;
+                res.count("stacked_hidden_celled_layers", (0..n).filter(|k| !visible[*k] && sp.cels.contains_key(&(0, *k as u16))).count() as u64);
+                res.count("stacked_background_flag_nested", (0..n).filter(|k| levels[*k] > 0 && flags[*k] & 8 != 0).count() as u64);
+            }
+        }
+        res
+    });
+    sum.merge(st);
     let exhaustive_sprites = sum.counters.get("exhaustive_sprites").cloned().unwrap_or(0);
     finish(
         ctx,
         sum,
         Finish {
-            rule: "EXHAUSTIVE: every level sequence of length 1..8 with level[0]=0 and level[i]<=level[i-1]+1 (2055 sequences) x every assignment of visible flags (431058 sprites); each leaf owns a 1x1 opaque cel of unique colour at x = its index; then random forests of 9..2000 layers incl. deep chains; distinct = distinct level sequence".into(),
+            rule: "EXHAUSTIVE: every level sequence of length 1..8 with level[0]=0 and level[i]<=level[i-1]+1 (2055 sequences) x every assignment of visible flags (431058 sprites); each leaf owns a 1x1 opaque cel of unique colour at x = its index; then random forests of 9..2000 layers (a few of 65536-70000) incl. deep chains; chains to depth 65535 and subtrees of > 65535 layers; stacked forests of 2..14 layers with overlapping translucent / canvas-sized cels and random other flag bits (background, lock, collapsed) on any layer, frame image compared with the reference composition of the visible layers; distinct = distinct level sequence".into(),
             coverage_extra: json!({"exhaustive_sequences": nseq, "exhaustive_sprites": exhaustive_sprites, "random_forests": nrand}),
             assumptions: vec![],
             exhaustive: true,
